@@ -456,6 +456,52 @@ def r06_13(run, model):
     run.ob("R06.13", "resolve_pat|guards examined", True, site(NR, ms[0]["sp"]), f"{n} guarded arm(s)")
 
 
+def r06_16(run, model):
+    run.rule("R06.16", "a form with field syntax names a struct: where the type checker resolves the constructor of `S { .. }` - the struct "
+                       "literal and the struct pattern - the lookup it uses searches the structs before the enum variants (a variant "
+                       "`Shape::Circle(Circle)` must not capture the pattern `Circle { r: q }` of the struct it wraps)")
+    CHECK = "crates/compiler/src/typer/check.rs"
+    ENV = "crates/compiler/src/env.rs"
+
+    def order_of(name, depth=0):
+        """'struct', 'enum' or None: which table the lookup `name` consults first (wrappers followed)"""
+        best = None
+        for g in model.find_fns(name, ENV):
+            if g.body is None:
+                continue
+            t = S.norm_ws(run.facts.text(ENV, g.body["sp"]))
+            ps, pe = t.find("lookup_struct_constructor("), t.find("lookup_enum_constructor(")
+            if ps >= 0 or pe >= 0:
+                r = "struct" if (ps >= 0 and (pe < 0 or ps < pe)) else "enum"
+                if g.impl == "TypeEnv" or best is None:
+                    best = r
+                continue
+            if depth < 3:
+                for c in S.walk(g.body):
+                    if c["k"] in ("Call", "MethodCall") and re.search(r"lookup_.*constructor", S.callee_name(c) or "") and S.callee_name(c) != name:
+                        if name == "lookup_constructor_with_namespace" or True:
+                            r = order_of(S.callee_name(c), depth + 1)
+                            if r and best is None:
+                                best = r
+        return best
+    sites = []
+    f = model.fn("infer_struct_literal_expr", CHECK, impl="Typer")
+    sites += [("infer_struct_literal_expr", c) for c in S.walk(f.body) if c["k"] == "MethodCall" and re.search(r"lookup_.*constructor", c["method"])]
+    g = model.fn("check_pat_constructor", CHECK, impl="Typer")
+    for m_ in S.find(g.body, "Match"):
+        for arm in m_["arms"]:
+            if re.search(r"Pat::PStruct\b", S.norm_ws(run.facts.text(CHECK, arm["pat"]["sp"]))):
+                sites += [("check_pat_constructor/PStruct", c) for c in S.walk(arm["body"]) if c["k"] == "MethodCall" and re.search(r"lookup_.*constructor", c["method"])]
+    if len(sites) < 2:
+        raise AnalysisIncomplete(f"constructor lookups of the field-syntax forms: {len(sites)} found")
+    for where, c in sites:
+        o = order_of(c["method"])
+        run.ob("R06.16", f"{where}|the constructor of a field-syntax form is sought among the structs first", o == "struct", site(CHECK, c["sp"]),
+               f"{c['method']}(..) consults the {o or '?'} table first",
+               witness="struct Circle { r: int32 } enum Shape { Circle(Circle), Dot }: `let Circle { r: q } = c;` is rejected (`Constructor Circle "
+                       "refers to an enum, but a struct literal was used`), q would be bound to the variant's payload")
+
+
 def r06_14(run, model):
     """the match compiler rejects a literal match without a catch-all by a diagnostic and goes on with `missing("")`: the rejection happens
     at the gate that follows it (shared with C03 R03.1, match-compilation stage only)"""
@@ -483,6 +529,7 @@ def run(run, model):
     from rules import c01
     run.try_rule(c01.r01_5, model, ("crates/compiler/src/compile_match.rs",))
     run.try_rule(r06_14, model)
+    run.try_rule(r06_16, model)
     # a pattern variable named like a struct must be bound to its component (shared with C05 R05.14)
     from rules import c05 as _c05
     run.try_rule(_c05.r05_14, model)
